@@ -19,8 +19,8 @@ RULE = ("one case = one bridge / converter configuration (AXILite2Wishbone, Wish
         "Wishbone2AXI, AXILite2CSR, AHB2Wishbone, AXILiteDown/UpConverter, AXILiteSRAM; widths 32/64, word/byte addressing, base "
         "addresses) x one partner class x one history of reads/writes (strobes, bursts FIXED/INCR/WRAP, narrow sizes) over a 64-word "
         "window. Partner classes: 'litex' = single-outstanding partners as LiteX builds them (must be clean); 'hostile' = legal "
-        "partners that queue several requests before answering, answer late, back-pressure responses, delay data; 'err' = slaves "
-        "answering some requests with an error. Master-side log vs window reference memory (a read may see any write it overlaps); "
+        "partners that queue several requests before answering, answer late, back-pressure responses, delay data; 'err' = hostile slaves that also refuse requests, 'err-simple' = slaves with LiteX-like timing (one request at a time, always ready) that refuse requests "
+        "(15% of them answered with an error). Master-side log vs window reference memory (a read may see any write it overlaps); "
         "stability / hold monitors on every slave-side output of the DUT. Non-trivial = >= 10 reads compared and >= 5 writes; "
         "distinct = distinct case digests")
 ASSUMPTIONS = ["migen tracer shim (names only)", "addresses stay inside the 64-word backing window",
@@ -57,8 +57,8 @@ def catalogue():
         c.append({"dut": "axil_up", "dw": dwf, "dwt": dwt})
     out = []
     for cfg in c:
-        for partner in ("litex", "hostile", "err"):
-            if partner == "err" and cfg["dut"] in ("axil_sram", "axil2csr", "axil_up"):
+        for partner in ("litex", "hostile", "err", "err-simple"):
+            if partner.startswith("err") and cfg["dut"] in ("axil_sram", "axil2csr", "axil_up"):
                 continue
             out.append(dict(cfg, partner=partner))
     return out
@@ -79,7 +79,7 @@ def bytes_of(words, dw):
 
 
 def sched_for(rng, partner):
-    if partner == "litex":
+    if partner in ("litex", "err-simple"):
         return Always(True)
     return make_sched(rng)[0]
 
@@ -93,8 +93,8 @@ def add_wb_backing(top, bench, rng, bus, dw, partner, base_words=0):
         slv = None
     else:
         mem = {i: x for i, x in enumerate(init)}
-        slv = bench.add(WBSlave(bus, rng, "wbmem", lat=rng.choice([(0, 0), (0, 5), (2, 6)]), mem=mem,
-                                err_p=0.15 if partner == "err" else 0.0, err_with_ack=True))
+        slv = bench.add(WBSlave(bus, rng, "wbmem", lat=rng.choice([(0, 0), (0, 2)] if partner == "err-simple" else [(0, 0), (0, 5), (2, 6)]),
+                                mem=mem, err_p=0.15 if partner.startswith("err") else 0.0, err_with_ack=True))
     mon = bench.add(WBProtocolMonitor(bus, "wb-slave-side", check_hold=True))
     return bytes_of(init, dw), slv, [mon]
 
@@ -104,6 +104,11 @@ def add_axil_backing(top, bench, rng, bus, dw, partner, hostile_from):
     slv = None
     if partner == "litex":
         top.submodules.backing = axi.AXILiteSRAM(WORDS * dw // 8, init=list(init), bus=bus)
+    elif partner == "err-simple":
+        # error-injecting slave with the timing of a LiteX slave: one request at a time, always ready, short latency
+        mem = {i: x for i, x in enumerate(init)}
+        slv = bench.add(AXILSlave(bus, rng, "axilmem", depth=1, aw_sched=Always(True), w_sched=Always(True), ar_sched=Always(True),
+                                  lat=rng.choice([(0, 0), (1, 3)]), mem=mem, err_p=0.15, coop_from=hostile_from))
     else:
         mem = {i: x for i, x in enumerate(init)}
         slv = bench.add(AXILSlave(bus, rng, "axilmem", depth=4, aw_sched=make_sched(rng)[0], w_sched=make_sched(rng)[0],
@@ -116,12 +121,12 @@ def add_axil_backing(top, bench, rng, bus, dw, partner, hostile_from):
 def add_axi_backing(top, bench, rng, bus, dw, partner, hostile_from):
     init = [rng.getrandbits(dw) for _ in range(WORDS)]
     b = bytes_of(init, dw)
-    lx = partner == "litex"
+    lx = partner in ("litex", "err-simple")
     slv = bench.add(AXISlave(bus, rng, "aximem", depth=1 if lx else 4,
                              aw_sched=Always(True) if lx else make_sched(rng)[0], w_sched=Always(True) if lx else make_sched(rng)[0],
                              ar_sched=Always(True) if lx else make_sched(rng)[0], r_sched=Always(True) if lx else make_sched(rng)[0],
                              lat=(0, 0) if lx else rng.choice([(0, 3), (2, 8)]), mem=dict(b),
-                             err_p=0.15 if partner == "err" else 0.0, coop_from=hostile_from))
+                             err_p=0.15 if partner.startswith("err") else 0.0, coop_from=hostile_from))
     mons = port_monitors(bench, bus, "axi-slave-side", "requests")
     return b, slv, list(mons.values())
 
@@ -207,7 +212,7 @@ def gen_wb_ops(rng, dw, base_words, n, byte_addressing=False):
 
 
 def mk_axil_master(bench, rng, bus, writes, reads, partner, hostile, name="m"):
-    if partner == "litex":
+    if partner in ("litex", "err-simple"):
         kw = dict(order=rng.choice(["together", "aw_first"]), max_out=1, p_aw=rng.choice([1.0, 0.5]), p_w=1.0, p_ar=rng.choice([1.0, 0.5]))
     else:
         kw = dict(order=rng.choice(["together", "aw_first", "w_first", "free"]), max_out=rng.choice([1, 1, 2, 4]),
@@ -217,7 +222,7 @@ def mk_axil_master(bench, rng, bus, writes, reads, partner, hostile, name="m"):
 
 
 def mk_axi_master(bench, rng, bus, writes, reads, partner, hostile, name="m"):
-    if partner == "litex":
+    if partner in ("litex", "err-simple"):
         kw = dict(order=rng.choice(["together", "aw_first"]), max_out=1, p_aw=rng.choice([1.0, 0.5]), p_w=rng.choice([1.0, 0.7]), p_ar=1.0)
     else:
         kw = dict(order=rng.choice(["together", "aw_first", "w_first", "free"]), max_out=rng.choice([1, 1, 2, 4]),
@@ -240,6 +245,7 @@ def judge_axil(m, ref, base, dw, errs, stats):
                   maybe=(resp != RESP_OKAY))
         if resp != RESP_OKAY:
             stats["err_resps"] += 1
+            stats["err_w"] = stats.get("err_w", 0) + 1
     for k, (c, resp, data) in enumerate(m.log["r"]):
         if k >= len(m.reads):
             errs.append({"kind": "more-r-than-reads"})
@@ -247,6 +253,7 @@ def judge_axil(m, ref, base, dw, errs, stats):
         t = m.reads[k]
         if resp != RESP_OKAY:
             stats["err_resps"] += 1
+            stats["err_r"] = stats.get("err_r", 0) + 1
             continue
         stats["reads"] += 1
         for l in range(nb):
@@ -277,6 +284,7 @@ def judge_axi(m, ref, base, dw, errs, stats):
             errs.append({"kind": "b-id-differs", "write": k, "id": t["id"], "got": bid})
         if resp != RESP_OKAY:
             stats["err_resps"] += 1
+            stats["err_w"] = stats.get("err_w", 0) + 1
         addrs = axm.beat_addresses(t["addr"] - base, t["len"], t["size"], t["burst"])
         bv = {}
         for bi, (ba, (data, strb)) in enumerate(zip(addrs, t["beats"])):
@@ -302,6 +310,7 @@ def judge_axi(m, ref, base, dw, errs, stats):
                 return
             if resp != RESP_OKAY:
                 stats["err_resps"] += 1
+                stats["err_r"] = stats.get("err_r", 0) + 1
                 continue
             lo, up = axm.byte_lanes(ba, t["size"], nb, bi == 0)
             wbase = (ba // nb) * nb
@@ -324,6 +333,8 @@ def judge_wb(m, ops, ref, dw, errs, stats, expect_err_path):
         a = op["word"]
         if e["err"]:
             stats["err_resps"] += 1
+            k_ = "err_w" if e["we"] else "err_r"
+            stats[k_] = stats.get(k_, 0) + 1
             if not e["we"]:
                 continue
         if e["we"]:
@@ -352,6 +363,8 @@ def judge_ahb(m, ref, dw, errs, stats):
         wbase = (e["addr"] // nb) * nb
         if e["resp"]:
             stats["err_resps"] += 1
+            k_ = "err_w" if e["write"] else "err_r"
+            stats[k_] = stats.get(k_, 0) + 1
             if not e["write"]:
                 continue
         if e["write"]:
@@ -476,6 +489,10 @@ def run_case(case):
             init = bytes_of(init_w, dwt)
             if partner == "litex":
                 top.submodules.backing = axi.AXILiteSRAM(total_bytes, init=list(init_w), bus=sbus)
+            elif partner == "err-simple":
+                bench.add(AXILSlave(sbus, rng, "axilmem", depth=1, aw_sched=Always(True), w_sched=Always(True), ar_sched=Always(True),
+                                    lat=rng.choice([(0, 0), (1, 3)]), mem={i: x for i, x in enumerate(init_w)}, err_p=0.15,
+                                    coop_from=hostile))
             else:
                 bench.add(AXILSlave(sbus, rng, "axilmem", depth=4, aw_sched=make_sched(rng)[0], w_sched=make_sched(rng)[0],
                                     ar_sched=make_sched(rng)[0], lat=rng.choice([(0, 0), (1, 6)]),
@@ -524,21 +541,39 @@ def run_case(case):
             for sv in mon.viol[:1]:
                 errs.append({"kind": "wishbone-%s" % sv["kind"], "port": mon.name, "at": sv})
     # error propagation: errors produced by the slave-side partner must surface at the master
-    slave_errs = 0
+    slave_w_errs = slave_r_errs = 0
     for a in bench.agents["sys"]:
         if isinstance(a, WBSlave):
-            slave_errs += sum(1 for e in a.log if e["err"]) + 0
+            slave_w_errs += sum(1 for e in a.log if e["err"] and e["we"])
+            slave_r_errs += sum(1 for e in a.log if e["err"] and not e["we"])
         elif isinstance(a, (AXILSlave, AXISlave)):
-            slave_errs += sum(1 for e in a.log["b"] if e[1] != RESP_OKAY) + sum(1 for e in a.log["r"] if e[1] != RESP_OKAY)
+            slave_w_errs += sum(1 for e in a.log["b"] if e[1] != RESP_OKAY)
+            slave_r_errs += sum(1 for e in a.log["r"] if e[1] != RESP_OKAY)
+    slave_errs = slave_w_errs + slave_r_errs
     stats["slave_errs"] = slave_errs
-    if partner == "err" and slave_errs >= 1 and stats["err_resps"] == 0:
-        # no error ever reached the master although the slave refused requests: a later read mismatch (the master
-        # believes a refused write took place) is a consequence of the dropped error, which is the root cause
-        if not errs and slave_errs >= 3:
-            errs.append({"kind": "slave-error-responses-not-propagated", "slave_side_errors": slave_errs, "master_side_errors": 0})
-        elif errs and all(e["kind"] == "read-returns-wrong-byte" for e in errs):
-            errs[:] = [{"kind": "slave-error-responses-not-propagated", "slave_side_errors": slave_errs, "master_side_errors": 0,
-                        "first_consequence": errs[0]}]
+    if partner.startswith("err"):
+        # per direction: the slave refused several requests of that direction and not one error of that direction reached the
+        # master. A later read mismatch (the master believes a refused write took place) is a consequence of the dropped
+        # write error, which is the root cause
+        w_dropped = slave_w_errs >= 3 and stats.get("err_w", 0) == 0
+        r_dropped = slave_r_errs >= 3 and stats.get("err_r", 0) == 0
+        w_maybe = slave_w_errs >= 1 and stats.get("err_w", 0) == 0
+        r_maybe = slave_r_errs >= 1 and stats.get("err_r", 0) == 0
+        if (w_dropped and r_maybe) or (r_dropped and w_maybe):
+            kind = "slave-error-responses-not-propagated"             # both directions
+        elif w_dropped:
+            kind = "slave-write-error-responses-not-propagated"
+        elif r_dropped:
+            kind = "slave-read-error-responses-not-propagated"
+        else:
+            kind = None
+        info = {"slave_side_write_errors": slave_w_errs, "slave_side_read_errors": slave_r_errs,
+                "master_side_write_errors": stats.get("err_w", 0), "master_side_read_errors": stats.get("err_r", 0)}
+        if not errs and kind:
+            errs.append(dict(info, kind=kind))
+        elif errs and w_maybe and all(e["kind"] == "read-returns-wrong-byte" for e in errs):
+            k2 = kind or "slave-write-error-responses-not-propagated"
+            errs[:] = [dict(info, kind=k2, first_consequence=errs[0])]
     # mechanism tags (used to name root causes; derived from what the partners actually did in this history)
     tags = []
     for a in bench.agents["sys"]:
@@ -588,7 +623,7 @@ def run_shard(shard):
             tag = "+".join(r["tags"]) or "simple-timing"
             root = {"axi2axil": "slave-queues-requests", "axil_up": "master-overlaps-requests"}.get(cfg["dut"])
             who = root if root in r["tags"] else "%s[%s]" % (cfg["partner"], tag)
-            if e["kind"] == "slave-error-responses-not-propagated":
+            if e["kind"].endswith("error-responses-not-propagated"):
                 who = "any-timing"
             col.violation("%s/%s/%s" % (cfg["dut"], who, e["kind"]), case,
                           "%s: %s" % (cfg, e), {"errors": r["errs"], "partner_behaviour": r["tags"]})
